@@ -771,6 +771,13 @@ where
             match token.as_branch() {
                 Some(Alternation(ref alternation)) => {
                     let outer = outer.or(left, right);
+                    #[cfg(wax_verif)]
+                    crate::verif::emit_rule_visit(|| crate::verif::RuleVisit {
+                        kind: 'A',
+                        span: *token.annotation().span(),
+                        left: outer.left.map(|token| *token.annotation().span()),
+                        right: outer.right.map(|token| *token.annotation().span()),
+                    });
                     let diagnose = diagnose(tree.expression(), token, "in this alternation");
                     for token in alternation.tokens() {
                         let concatenation = token.concatenation();
@@ -783,6 +790,13 @@ where
                 },
                 Some(Repetition(ref repetition)) => {
                     let outer = outer.or(left, right);
+                    #[cfg(wax_verif)]
+                    crate::verif::emit_rule_visit(|| crate::verif::RuleVisit {
+                        kind: 'R',
+                        span: *token.annotation().span(),
+                        left: outer.left.map(|token| *token.annotation().span()),
+                        right: outer.right.map(|token| *token.annotation().span()),
+                    });
                     let diagnose = diagnose(tree.expression(), token, "in this repetition");
                     let token = repetition.token();
                     let concatenation = token.concatenation();
